@@ -305,7 +305,9 @@ class Backend(ABC):
             for index, cond in enumerate(rule.detection.parsed_condition):
                 state = states[index]
                 result = self.convert_condition(cond.parsed, state)
-                if result is not None:
+                if result is not None or state.has_deferred():
+                    # (a condition of which only deferred parts are left has no main query, but it
+                    # is a query nevertheless)
                     result = self.finish_query(rule, result, state)
                 if callback is not None:
                     result = callback(rule, output_format, index, cond, result)
@@ -3001,7 +3003,7 @@ class TextQueryBackend(Backend):
         if state.has_deferred():
             if self.deferred_start is None or self.deferred_separator is None:
                 raise NotImplementedError("Deferred query parts are not supported by the backend.")
-            if isinstance(query, DeferredQueryExpression):
+            if query is None or isinstance(query, DeferredQueryExpression):
                 query = self.deferred_only_query
             query = (
                 self.query_expression.format(
